@@ -6,7 +6,7 @@ From Coq Require Import List NArith ZArith Bool String.
 From Coq.Strings Require Import Byte.
 From RTCP Require Import Lib.Base Lib.Sval Lib.Reflect
   Model.Header Model.Reports Model.Sdes Model.ByeApp Model.Feedback Model.Twcc Model.Ccfb Model.Remb Model.Xr Model.Packet
-  Spec.NackSpec Spec.Enc Spec.XrSpec Spec.Laws Check.Codec Check.Ops.
+  Spec.NackSpec Spec.Enc Spec.XrSpec Spec.Laws Check.Codec Check.Ops Check.SrcCheck.
 Import ListNotations.
 Local Open Scope string_scope.
 Local Open Scope list_scope.
@@ -849,6 +849,17 @@ Definition prop_agree (prop : string) (id op m i : sval) : option sval :=
   else if String.eqb prop "C01" then C01_agree id m i
   else agree_all id m i.
 
+(* which differences between the model and the functions translated from the source count for a property: C01 only
+   claims the absence of panics, C12 only which sequence numbers are covered (both are compared with the model on just
+   that); every other property is decided on the model's complete observation, so the translated functions must give it too *)
+Definition src_diffs (prop : string) (op : sval) : list sval :=
+  if String.eqb prop "C12" then []
+  else if String.eqb prop "C01" then
+    filter (fun d => match d with
+                     | SL [_; m; v] => negb (Bool.eqb (is_class "panic" m || is_class "fuel" m) (is_class "panic" v || is_class "fuel" v))
+                     | _ => true end) (src_check op)
+  else src_check op.
+
 Definition check_one (id : sval) (prop : string) (op impl meta : sval) : sval :=
   match run_op op with
   | None => SL [SY "verdict"; id; SL [SY "unsupported"]]
@@ -858,7 +869,12 @@ Definition check_one (id : sval) (prop : string) (op impl meta : sval) : sval :=
       | h =>
           match prop_agree prop id op m impl with
           | Some d => d
-          | None => match h with HTrivial => SL [SY "verdict"; id; SL [SY "trivial"]] | _ => pass id end
+          | None =>
+              (* the functions translated from the source text must agree with the model on this case as well *)
+              match src_diffs prop op with
+              | d :: _ => diff id "source_translation" (SL [SY "model-vs-translated"]) d
+              | [] => match h with HTrivial => SL [SY "verdict"; id; SL [SY "trivial"]] | _ => pass id end
+              end
           end
       end
   end.
